@@ -31,3 +31,6 @@ package bigxy
 //@   ensures res == sgnOf(cross2(vectorOrigin[0], vectorOrigin[1], vectorEnd[0], vectorEnd[1], point[0], point[1]))
 //@   at exit: use crossForms(vectorOrigin[0], vectorOrigin[1], vectorEnd[0], vectorEnd[1], point[0], point[1])
 //@   modifies nothing
+//@   at stmt12: assert bvs(dx1) == vectorEnd[0] - vectorOrigin[0] && bvs(dy1) == vectorEnd[1] - vectorOrigin[1] && bvs(dx2) == point[0] - vectorEnd[0] && bvs(dy2) == point[1] - vectorEnd[1]
+//@   at stmt14: assert bvs(dx1) == (vectorEnd[0] - vectorOrigin[0]) * (point[1] - vectorEnd[1]) && bvs(dy1) == (vectorEnd[1] - vectorOrigin[1]) * (point[0] - vectorEnd[0])
+//@   at stmt15: assert bvs(dx1) == cross2b(vectorOrigin[0], vectorOrigin[1], vectorEnd[0], vectorEnd[1], point[0], point[1])
